@@ -113,7 +113,8 @@ def gen_dt(rng):
 def gen_parse(rng):
     t = rng.choice(R.TEMPLATES)
     op = ["parse", t["name"], gen_dt(rng), None, 0,
-          rng.choice(["module", "module", "p0", "p1", "info", "pinfo"]),
+          rng.choice(["module", "module", "p0", "p1", "info", "pinfo",
+                      "info_override"]),
           rng.choice(["str", "str", "str", "bytes", "stringio",
                       "shortstream", "stringio_offset"]),
           rng.choice(["explicit", "explicit", "clock"])]
@@ -301,6 +302,14 @@ def do_parse(env, op, text, flags):
         x = text
     if via == "module":
         return env.parser.parse(x, **kw)
+    if via == "info_override":
+        # the parserinfo says the opposite; the flags given with the call
+        # (True or an explicit False) decide
+        info = env.parser.parserinfo(dayfirst=not kw.get("dayfirst", False),
+                                     yearfirst=not kw.get("yearfirst", False))
+        kw.setdefault("dayfirst", False)
+        kw.setdefault("yearfirst", False)
+        return env.parser.parse(x, parserinfo=info, **kw)
     if via in ("info", "pinfo"):
         # the day-first / year-first reading configured on a parserinfo
         # INSTANCE (built now, under the simulated clock) instead of per call
